@@ -166,6 +166,9 @@ class Query:
         import sys
         sys.path.insert(0, REPO_SRC)
         cl = importlib.import_module('tally.classification')
+        if kw.get('grid_prefix') is not None:
+            # found by the fallback grid: replay the same calls, in the same order, in one freshly loaded script
+            return fallback_search(self.kind, kw.get('which', self.which), upto=int(kw['grid_prefix'])) is None
         if self.kind == 'cashflow':
             p = cl.calculate_cash_flow(kw['income'], kw['spending'], kw['credits'])
             j = run_js([('calculateCashFlow', [_num_arg(kw['income']), _num_arg(kw['spending']), _num_arg(kw['credits'])])])[0]
@@ -181,41 +184,55 @@ class Query:
         return _same(p.get(pk, 0.0), j.get(jk, 0))
 
 
-def fallback_search(kind, which):
-    import importlib
+def _grid(kind):
+    """The fixed differential grid: list of (inputs dict, js call).  The same inputs appear twice so that state kept between
+    calls of one loaded script shows up."""
     import itertools
-    import sys
-    sys.path.insert(0, REPO_SRC)
-    cl = importlib.import_module('tally.classification')
     nan = float('nan')
     if kind == 'cashflow':
-        grid = [(a, b, c) for a in (0.0, 1.5, -2.0, 1e308) for b in (0.0, 0.1, 3.0, -1e308) for c in (0.0, 0.2, nan)]
-        js = run_js([('calculateCashFlow', [_num_arg(a), _num_arg(b), _num_arg(c)]) for a, b, c in grid])
-        for (a, b, c), j in zip(grid, js):
-            if not _same(cl.calculate_cash_flow(a, b, c), j):
-                return {'income': a, 'spending': b, 'credits': c}
-        return None
+        return [({'income': a, 'spending': b, 'credits': c}, ('calculateCashFlow', [_num_arg(a), _num_arg(b), _num_arg(c)]))
+                for a in (0.0, 1.5, -2.0, 1e308) for b in (0.0, 0.1, 3.0, -1e308) for c in (0.0, 0.2, nan)]
     specials = ['income', 'INCOME', 'Transfer', 'transfer', 'investment', 'InVestment']
     alike = ['incomes', 'income-tax', 'xincome', ' income', 'transfers', 'transferwise', 'investments', 'food', '']
     lists = [None, []] + [[t] for t in specials + alike]
     lists += [list(p) for p in itertools.permutations(['income', 'transfer', 'investment'], 2)]
     lists += [list(p) for p in itertools.permutations(['Income', 'TRANSFER', 'Investment'], 3)]
     lists += [[a, 'food'] for a in specials] + [['food', a] for a in alike] + [['Recurring', a] for a in specials] + [['FOOD', a, 'Misc'] for a in specials]
-    lists = lists + lists        # the same inputs twice in one loaded script: state kept between calls shows up
-    amounts = [-2.5, -0.0, 0.0, 3.0, nan]
+    lists = lists + lists
     if kind == 'excluded':
-        js = run_js([('isExcludedFromSpending', [t]) for t in lists])
-        for t, j in zip(lists, js):
-            if bool(cl.is_excluded_from_spending(t)) != bool(j):
-                return {'amount': 1.0, 'tags': t}
-        return None
+        return [({'amount': 1.0, 'tags': t}, ('isExcludedFromSpending', [t])) for t in lists]
+    return [({'amount': a, 'tags': t}, ('categorizeAmount', [_num_arg(a), t])) for a in (-2.5, -0.0, 0.0, 3.0, nan) for t in lists]
+
+
+def _agree(cl, kind, which, inp, j):
+    if kind == 'cashflow':
+        return _same(cl.calculate_cash_flow(inp['income'], inp['spending'], inp['credits']), j)
+    if kind == 'excluded':
+        return bool(cl.is_excluded_from_spending(inp['tags'])) == bool(j)
     pk, jk = which
-    grid = [(a, t) for a in amounts for t in lists]
-    js = run_js([('categorizeAmount', [_num_arg(a), t]) for a, t in grid])
-    for (a, t), j in zip(grid, js):
-        p = cl.categorize_amount(a, t)
-        if not _same(p.get(pk, 0.0), j.get(jk, 0)):
-            return {'amount': a, 'tags': t, 'which': [pk, jk]}
+    return _same(cl.categorize_amount(inp['amount'], inp['tags']).get(pk, 0.0), j.get(jk, 0))
+
+
+def fallback_search(kind, which, upto=None):
+    """First grid entry on which Python and the JS (ONE node process for the whole grid: the page keeps the script loaded)
+    disagree; `grid_prefix` = how many earlier calls the same script had served (the history matters if it keeps state)."""
+    import importlib
+    import sys
+    sys.path.insert(0, REPO_SRC)
+    cl = importlib.import_module('tally.classification')
+    grid = _grid('bucket' if kind == 'reach' else kind)
+    if upto is not None:
+        grid = grid[:upto + 1]
+    js = run_js([c for _, c in grid])
+    for i, ((inp, _), j) in enumerate(zip(grid, js)):
+        if upto is not None and i != upto:
+            continue
+        if not _agree(cl, 'bucket' if kind == 'reach' else kind, which, inp, j):
+            out = dict(inp)
+            if which:
+                out['which'] = list(which)
+            out['grid_prefix'] = i
+            return out
     return None
 
 
@@ -270,7 +287,12 @@ def validate_translator():
 class Validate:
     def query(self):
         t0 = time.time()
-        n = validate_translator()
+        from engine.smt import symexec as S
+        try:
+            n = validate_translator()
+        except S.Unsupported as e:
+            return {'status': 'UNKNOWN', 'message': 'translator cannot encode the current source (%s): nothing to validate' % e,
+                    'solver_queries': 0, 'solver_time_s': 0.0, 'paths': 0}
         return {'status': 'CONFIRMED', 'message': f'{n} concrete outputs of the real functions reproduced by the encodings',
                 'solver_queries': n, 'solver_time_s': round(time.time() - t0, 2), 'paths': n}
 
